@@ -152,16 +152,19 @@ def cases(c):
                 for cplx in (0, 1):
                     out.append({'N': N, 'order': order, 'cplx': cplx, 'kind': 'noise', 'cont': 'array',
                                 'directed': True})
-    for i in range(260 if c.tier == 'quick' else 8000):
+    for i in range(1500 if c.tier == 'quick' else 10000):
         N = int(rng.integers(3, 201 if i % 3 == 0 else 64))
         out.append({'N': N, 'order': int(rng.integers(1, min(N - 1, 30) + 1)), 'cplx': int(rng.integers(0, 2)),
-                    'kind': gen.pick(rng, KINDS), 'cont': gen.pick(rng, ['array', 'array', 'list']), 'i': i})
+                    'kind': gen.pick(rng, KINDS), 'cont': gen.pick(rng, ['array', 'array', 'list']),
+                    'amp10': int(gen.pick(rng, [0, 0, 0, -3, -5, -6, 3, 5])), 'i': i})
     return out
 
 
 def run_case(c, d):
     import spectrum
     x = gen.data({'kind': d['kind'], 'N': d['N'], 'cplx': bool(d['cplx'])}, c.rng(d, 'x'))
+    if d.get('amp10'):
+        x = x * 10.0 ** d['amp10']            # "any non-zero data": the estimator is scale equivariant
     order = d['order']
     c.set_nontrivial(order >= 2)
     feats = {'cplx': bool(d['cplx'])}
